@@ -121,99 +121,113 @@ def main():
     timing["gen_s"] = round(time.time() - t2, 1)
 
     t3 = time.time()
-    spec = core.run_driver_par(["spec"], cases, workdir, "spec", jobs=8)
-    models = {}
-    for prof in sorted(set(core.CONFIGS[c][2] for c in configs)):
-        models[prof] = core.run_driver_par(["run", prof], cases, workdir, "model." + prof, jobs=8)
-    impls = {}
-    for c in configs:
-        impls[c] = core.run_harness_par(c, cases, workdir, jobs=4)
+    st = {"impl_vs_spec": 0, "model_vs_impl": 0, "model_vs_spec": 0, "out_of_hypothesis": 0, "first_div": None, "classes": {}}
+
+    def compare(cases, tag=""):
+        """runs Spec, model and the real code on `cases`, accumulates verdict data; returns (spec, models, impls)"""
+        spec = core.run_driver_par(["spec"], cases, workdir, "spec" + tag, jobs=8)
+        models = {}
+        for prof in sorted(set(core.CONFIGS[c][2] for c in configs)):
+            models[prof] = core.run_driver_par(["run", prof], cases, workdir, "model." + prof + tag, jobs=8)
+        impls = {}
+        for c in configs:
+            impls[c] = core.run_harness_par(c, cases, workdir, jobs=4)
+        classes = st["classes"]
+        for i, cs in enumerate(cases):
+            for prof, m in models.items():
+                if pd.skip_model_ub and "UB" in m[i] and "OOB" not in m[i]:
+                    continue
+                if not core.admits(spec[i], m[i]) or "OOB" in m[i] or (("UB" in m[i]) and not pd.ub_is_known):
+                    st["model_vs_spec"] += 1
+                    if len(nofail) < 5:
+                        nofail.append({"kind": "model-violates-spec", "case": cs, "model": m[i], "spec": spec[i], "profile": prof})
+            for c in configs:
+                a = impls[c][i]
+                b = models[core.CONFIGS[c][2]][i]
+                cls = core.outcome_class(a)
+                classes[cls] = classes.get(cls, 0) + 1
+                bad = (not core.admits(spec[i], a)) or a.startswith("crash") or a == "harness-panic"
+                extra = pd.oracle(cs, a, c)
+                if extra:
+                    bad = True
+                if pd.ub_is_known and "UB" in b:
+                    bad = False      # handled below as (known) undefined-behaviour finding
+                if pd.skip_model_ub and "UB" in b and "OOB" not in b:
+                    bad = False      # input outside the property's hypothesis (an enum-typed field holds an undeclared value)
+                if bad:
+                    kf = pd.match_known(known, cs, a, c)
+                    if kf:
+                        known_hits[kf["id"]] = kf
+                        continue
+                    st["impl_vs_spec"] += 1
+                    if len(violations) < 20:
+                        violations.append({"property": prop, "case": cs, "config": c, "impl": a, "model": b, "spec": spec[i],
+                                           "why": extra or "the real code's outcome is not admitted by the specification"})
+                elif pd.ub_is_known and "UB" in b:
+                    kf = next((k for k in known if k.get("model_ub")), None)
+                    if kf:
+                        known_hits[kf["id"]] = kf
+                        st["out_of_hypothesis"] += 1
+                    else:
+                        st["impl_vs_spec"] += 1
+                        if len(violations) < 20:
+                            violations.append({"property": prop, "case": cs, "config": c, "impl": a, "model": b,
+                                               "why": "the code reads an enum-typed field holding an undeclared value (undefined behaviour: results depend on the optimiser)"})
+                elif pd.skip_model_ub and "UB" in b:
+                    st["out_of_hypothesis"] += 1
+                elif pd.canon(a) != pd.canon(b):
+                    st["model_vs_impl"] += 1
+                    if st["first_div"] is None:
+                        st["first_div"] = {"case": cs, "config": c, "impl": a, "model": b, "spec": spec[i]}
+
+        # poison: a second run with different poison must give identical observations
+        if pd.poison:
+            for c in configs:
+                again = core.run_harness_par(c, cases, workdir, poison=0x3C, jobs=4)
+                for i, (a, b) in enumerate(zip(impls[c], again)):
+                    if a != b:
+                        kf = pd.match_known(known, cases[i], a, c)
+                        if kf:
+                            known_hits[kf["id"]] = kf
+                            continue
+                        st["impl_vs_spec"] += 1
+                        if len(violations) < 20:
+                            violations.append({"property": prop, "case": cases[i], "config": c, "impl": a, "impl_other_poison": b,
+                                               "why": "observation depends on bytes outside the permitted extent (poison changed the output)"})
+
+        # cross-configuration equality (C08 and wherever the property says so)
+        if pd.cross_config:
+            base = configs[0]
+            for c in configs[1:]:
+                for i, (a, b) in enumerate(zip(impls[base], impls[c])):
+                    if pd.ub_is_known and any("UB" in m[i] for m in models.values()):
+                        continue
+                    if pd.canon(a) != pd.canon(b):
+                        kf = pd.match_known(known, cases[i], a, c)
+                        if kf:
+                            known_hits[kf["id"]] = kf
+                            continue
+                        st["impl_vs_spec"] += 1
+                        if len(violations) < 20:
+                            violations.append({"property": prop, "case": cases[i], "config": c, "impl": b, "impl_" + base: a,
+                                               "why": "outcome differs between build configurations %s and %s" % (base, c)})
+        return spec, models, impls
+
+    spec, models, impls = compare(cases)
     timing["run_s"] = round(time.time() - t3, 1)
 
-    impl_vs_spec = 0
-    model_vs_impl = 0
-    model_vs_spec = 0
-    out_of_hypothesis = 0
-    first_div = None
-    classes = {}
-    for i, cs in enumerate(cases):
-        for prof, m in models.items():
-            if pd.skip_model_ub and "UB" in m[i] and "OOB" not in m[i]:
-                continue
-            if not core.admits(spec[i], m[i]) or "OOB" in m[i] or (("UB" in m[i]) and not pd.ub_is_known):
-                model_vs_spec += 1
-                if len(nofail) < 5:
-                    nofail.append({"kind": "model-violates-spec", "case": cs, "model": m[i], "spec": spec[i], "profile": prof})
-        for c in configs:
-            a = impls[c][i]
-            b = models[core.CONFIGS[c][2]][i]
-            cls = core.outcome_class(a)
-            classes[cls] = classes.get(cls, 0) + 1
-            bad = (not core.admits(spec[i], a)) or a.startswith("crash") or a == "harness-panic"
-            extra = pd.oracle(cs, a, c)
-            if extra:
-                bad = True
-            if pd.ub_is_known and "UB" in b:
-                bad = False      # handled below as (known) undefined-behaviour finding
-            if pd.skip_model_ub and "UB" in b and "OOB" not in b:
-                bad = False      # input outside the property's hypothesis (an enum-typed field holds an undeclared value)
-            if bad:
-                kf = pd.match_known(known, cs, a, c)
-                if kf:
-                    known_hits[kf["id"]] = kf
-                    continue
-                impl_vs_spec += 1
-                if len(violations) < 20:
-                    violations.append({"property": prop, "case": cs, "config": c, "impl": a, "model": b, "spec": spec[i],
-                                       "why": extra or "the real code's outcome is not admitted by the specification"})
-            elif pd.ub_is_known and "UB" in b:
-                kf = next((k for k in known if k.get("model_ub")), None)
-                if kf:
-                    known_hits[kf["id"]] = kf
-                    out_of_hypothesis += 1
-                else:
-                    impl_vs_spec += 1
-                    if len(violations) < 20:
-                        violations.append({"property": prop, "case": cs, "config": c, "impl": a, "model": b,
-                                           "why": "the code reads an enum-typed field holding an undeclared value (undefined behaviour: results depend on the optimiser)"})
-            elif pd.skip_model_ub and "UB" in b:
-                out_of_hypothesis += 1
-            elif pd.canon(a) != pd.canon(b):
-                model_vs_impl += 1
-                if first_div is None:
-                    first_div = {"case": cs, "config": c, "impl": a, "model": b, "spec": spec[i]}
-
-    # poison: a second run with different poison must give identical observations
-    if pd.poison:
-        for c in configs:
-            again = core.run_harness_par(c, cases, workdir, poison=0x3C, jobs=4)
-            for i, (a, b) in enumerate(zip(impls[c], again)):
-                if a != b:
-                    kf = pd.match_known(known, cases[i], a, c)
-                    if kf:
-                        known_hits[kf["id"]] = kf
-                        continue
-                    impl_vs_spec += 1
-                    if len(violations) < 20:
-                        violations.append({"property": prop, "case": cases[i], "config": c, "impl": a, "impl_other_poison": b,
-                                           "why": "observation depends on bytes outside the permitted extent (poison changed the output)"})
-
-    # cross-configuration equality (C08 and wherever the property says so)
-    if pd.cross_config:
-        base = configs[0]
-        for c in configs[1:]:
-            for i, (a, b) in enumerate(zip(impls[base], impls[c])):
-                if pd.ub_is_known and any("UB" in m[i] for m in models.values()):
-                    continue
-                if pd.canon(a) != pd.canon(b):
-                    kf = pd.match_known(known, cases[i], a, c)
-                    if kf:
-                        known_hits[kf["id"]] = kf
-                        continue
-                    impl_vs_spec += 1
-                    if len(violations) < 20:
-                        violations.append({"property": prop, "case": cases[i], "config": c, "impl": b, "impl_" + base: a,
-                                           "why": "outcome differs between build configurations %s and %s" % (base, c)})
+    # exhaustive finite domains that are too large to hold in memory: streamed in chunks through the same comparison
+    t35 = time.time()
+    streamed = 0
+    streamed_nontrivial = 0
+    for chunk in pd.stream(tier, random.Random(seed + 1)):
+        _, ms, _ = compare(chunk, tag=".stream")
+        streamed += len(chunk)
+        m0 = next(iter(ms.values()))
+        streamed_nontrivial += sum(1 for x in m0 if not pd.trivial(x))
+        if len(violations) >= 20:
+            break
+    timing["stream_s"] = round(time.time() - t35, 1)
 
     # exhaustive 2^32 domains by block hashes
     t4 = time.time()
@@ -230,16 +244,16 @@ def main():
                 b0 = diff[0]
                 found = pd.expand_block(fn, b0, c, workdir)
                 if found:
-                    impl_vs_spec += 1
+                    st["impl_vs_spec"] += 1
                     violations.append(dict(found, property=prop, config=c, why="exhaustive block %d of %s differs; value-level expansion found a spec violation" % (b0, fn)))
                 else:
-                    model_vs_impl += 1
-                    if first_div is None:
-                        first_div = {"case": "blocks %s %d" % (fn, b0), "config": c, "impl": ih.get(b0), "model": mh.get(b0)}
+                    st["model_vs_impl"] += 1
+                    if st["first_div"] is None:
+                        st["first_div"] = {"case": "blocks %s %d" % (fn, b0), "config": c, "impl": ih.get(b0), "model": mh.get(b0)}
     timing["blocks_s"] = round(time.time() - t4, 1)
 
-    if model_vs_impl and not violations:
-        nofail.append({"kind": "correspondence", "family_first_divergence": first_div, "count": model_vs_impl})
+    if st["model_vs_impl"] and not violations:
+        nofail.append({"kind": "correspondence", "family_first_divergence": st["first_div"], "count": st["model_vs_impl"]})
 
     # ---------------------------------------------------------------- 4. verdict
     rc = 0
@@ -277,15 +291,15 @@ def main():
             "checker_cmd": "cd /verif/lean && lake build Mb2.Props.%s && lake env lean <generated #print axioms file>%s" % (prop, " && lake env leanchecker Mb2.Props.%s" % prop if tier == "thorough" else ""),
             "trusted_base": TRUSTED,
             "theorems": proof.get("axioms", {}),
-            "evaluations": len(cases) * len(configs) + blk["values"],
-            "distinct_nontrivial": len(nontrivial),
+            "evaluations": (len(cases) + streamed) * len(configs) + blk["values"],
+            "distinct_nontrivial": len(nontrivial) + streamed_nontrivial,
             "rule": pd.rule,
             "samples": samples,
-            "exhaustive": bool(blk["blocks"]) and tier == "thorough" and pd.blocks_exhaustive,
+            "exhaustive": (bool(blk["blocks"]) or bool(streamed)) and tier == "thorough" and pd.blocks_exhaustive,
             "correspondence": {
-                "cases": len(cases), "configs": configs, "impl_vs_spec_failures": impl_vs_spec,
-                "model_vs_impl_divergences": model_vs_impl, "model_vs_spec_failures": model_vs_spec,
-                "out_of_hypothesis_cases": out_of_hypothesis, "impl_outcome_classes": classes, "block_hashing": blk, "poison_rerun": pd.poison,
+                "cases": len(cases), "streamed_cases": streamed, "configs": configs, "impl_vs_spec_failures": st["impl_vs_spec"],
+                "model_vs_impl_divergences": st["model_vs_impl"], "model_vs_spec_failures": st["model_vs_spec"],
+                "out_of_hypothesis_cases": st["out_of_hypothesis"], "impl_outcome_classes": st["classes"], "block_hashing": blk, "poison_rerun": pd.poison,
             },
             "known_findings_hit": sorted(known_hits.keys()),
             "timing": timing,
@@ -298,7 +312,7 @@ def main():
     if rc == 0:
         shutil.rmtree(workdir, ignore_errors=True)
         print("OK property=%s tier=%s theorems=%d/%d cases=%d configs=%s blocks=%d wall=%.0fs" % (
-            prop, tier, proof["discharged"], proof["obligations"], len(cases), ",".join(configs), blk["blocks"], time.time() - t0))
+            prop, tier, proof["discharged"], proof["obligations"], len(cases) + streamed, ",".join(configs), blk["blocks"], time.time() - t0))
     sys.exit(rc)
 
 
